@@ -55,6 +55,8 @@ def analysisVerdict (spec : Json → Json → String) (inp impl : Json) : Verdic
   -- clauses first, so the parameter is typed and named after that use, not after its first use in the text
   let cteRepeat := (src.search (·.isKind "WithClause")).any (fun w =>
     (List.range 12).any (fun n => countParam (n + 1) w > 0 && countParam (n + 1) src > countParam (n + 1) w))
+  -- JOIN … USING: sqlc does not merge the join column, an unqualified reference to it is reported ambiguous
+  let joinUsing := (src.search (·.isKind "JoinExpr")).any (fun j => !(j.get "UsingClause").isNull && !(j.get "UsingClause").items.isEmpty)
   -- a set-returning function in FROM contributes no relation in sqlc: its column cannot be named
   let rangeFunc := !(src.search (·.isKind "RangeFunction")).isEmpty
   { model := run.model, compare := !walkPanic && !reparseRejected impl, frag := if walkPanic then "out:walk-panic" else if reparseRejected impl then "out:reparse-rejected" else "in",
@@ -64,7 +66,8 @@ def analysisVerdict (spec : Json → Json → String) (inp impl : Json) : Verdic
       (if resShared then ["reservedShared"] else []) ++ (if lenDrop then ["lengthDropped"] else []) ++
       (if coalesceAlias then ["coalesceAlias"] else []) ++ (if aliasList then ["aliasListIgnored"] else []) ++
       (if unknownQual then ["unknownQualifier"] else []) ++ (if updFromStar then ["updateFromStar"] else []) ++
-      (if rangeFunc then ["funcFromItem"] else []) ++ (if cteRepeat then ["cteWalkOrder"] else []),
+      (if rangeFunc then ["funcFromItem"] else []) ++ (if cteRepeat then ["cteWalkOrder"] else []) ++
+      (if joinUsing then ["joinUsing"] else []),
     implProj := some (implProjection impl) }
 
 def c02 (kind : String) (inp impl : Json) : Verdict :=
